@@ -513,6 +513,40 @@ class ModelInterp(MiniEval):
             return
         if isinstance(s, ast.Raise) and s.exc is None and '__handling__' in env:
             raise env['__handling__']
+        if (isinstance(s, ast.Expr) and isinstance(s.value, ast.Yield) or isinstance(s, ast.Assign) and isinstance(s.value, ast.Yield)) \
+                and env.get('__with_body__') is not None:
+            # the `yield` of an inlined @contextmanager function: the block of the `with` statement runs here
+            body, outer_env, target = env['__with_body__']
+            val = self.expr(s.value.value, env) if s.value.value is not None else None
+            if target is not None:
+                self.assign(target, val, outer_env)
+            env['__with_body__'] = None  # a context manager yields once
+            try:
+                self.block(body, outer_env)
+            except _Return as r:
+                raise _WithReturn(r) from None  # leaves the manager through its finally clauses, then returns from the caller
+            return
+        if isinstance(s, ast.With) and len(s.items) >= 1:
+            cmf = self._contextmanager_target(s.items[0].context_expr, env)
+            if cmf is not None:
+                recv, fn_, call = cmf
+                inner = ast.With(items=s.items[1:], body=s.body, lineno=s.lineno, col_offset=0) if len(s.items) > 1 else None
+                body = [inner] if inner is not None else s.body
+                args, kwargs = self._args(call, env)
+                self.modstack.append(fn_.module.name)
+                self.depth += 1
+                if self.depth > 60:
+                    raise Unsupported('interpretation depth exceeded')
+                try:
+                    extra = {'__class_q__': fn_.cls.qualname if fn_.cls else None, '__with_body__': (body, env, s.items[0].optional_vars)}
+                    try:
+                        self._call_with_env(fn_.node, ([recv] if recv is not None else []) + list(args), kwargs, extra)
+                    except _WithReturn as r:  # a `return` inside the with block, passing through the manager's finally
+                        raise r.inner from None
+                finally:
+                    self.depth -= 1
+                    self.modstack.pop()
+                return
         if isinstance(s, ast.With):
             entered = []
             for it in s.items:
@@ -531,6 +565,31 @@ class ModelInterp(MiniEval):
             return
         super().stmt(s, env)
 
+    def _contextmanager_target(self, e: ast.expr, env: dict):
+        """(receiver or None, FuncInfo, call) when E calls a repository function decorated with @contextmanager"""
+        if not isinstance(e, ast.Call):
+            return None
+        f = e.func
+        try:
+            if isinstance(f, ast.Name):
+                if f.id in env or f.id in self.globals:
+                    return None
+                tv = self.lookup(f.id, env)
+                fn_, recv = (tv.fn, None) if isinstance(tv, FuncRef) else (None, None)
+            elif isinstance(f, ast.Attribute):
+                base = self.expr(f.value, env)
+                if not isinstance(base, Stub) or f.attr in base._attrs:
+                    return None
+                tv = self.get_attr(base, f.attr)
+                fn_, recv = (tv.fn, tv.recv) if isinstance(tv, Bound) and tv.fn is not None else (None, None)
+            else:
+                return None
+        except Unsupported:
+            return None
+        if fn_ is None or not any(d.split('.')[-1] == 'contextmanager' for d in fn_.decorators):
+            return None
+        return recv, fn_, e
+
     def _exc_matches(self, raised: str, handler_names: list[str]) -> bool:
         rq = None
         short = raised.split('(')[0].split('.')[-1]
@@ -545,6 +604,11 @@ class ModelInterp(MiniEval):
                     if c.split('.')[-1] == h:
                         return True
         return False
+
+
+class _WithReturn(Exception):
+    def __init__(self, inner):
+        self.inner = inner
 
 
 class ExitStackM:
